@@ -466,6 +466,10 @@ type noneClassCase struct {
 var noneClassHeld = []string{"lock", "statfs", "close"}
 var noneClassOthers = []string{"setattr-same-path", "mkdir-same-dir", "unlinkat", "renameat", "getattr", "walk", "create"}
 
+// read-class calls held, and requests that nothing orders after them
+var readClassHeld = []string{"read", "write", "getattr-held"}
+var readClassOthers = []string{"version", "getattr-elsewhere", "read-same-file", "getattr"}
+
 func runNoneClassCase(c noneClassCase) *fail {
 	p, f := newPipe(1, c.Native)
 	if f != nil {
@@ -482,6 +486,12 @@ func runNoneClassCase(c noneClassCase) *fail {
 		held, op, hh = tLock(90), "Lock", p.handles[90]
 	case "statfs":
 		held, op, hh = tStatfs(100), "StatFS", p.handles[100]
+	case "read": // read-class calls: only requests the contract does not order after them are tried
+		held, op, hh = tRead(90, 0, 4), "ReadAt", p.handles[90]
+	case "write":
+		held, op, hh = tWrite(90, 0, "zz"), "WriteAt", p.handles[90]
+	case "getattr-held":
+		held, op, hh = tGetattr(100), "GetAttr", p.handles[100]
 	default:
 		held, op, hh = tClunk(100), "Close", p.handles[100]
 	}
@@ -523,6 +533,17 @@ func runNoneClassCase(c noneClassCase) *fail {
 		other = tWalk(71, 75, "wA")
 	case "create":
 		other = tCreate(71, "created", 2, 0o644)
+	case "version":
+		// a second Tversion in mid-session (same parameters): handled by the receiver
+		// itself, ordered after nothing
+		other = refcodec.New(refcodec.Tversion, 0, "msize", 64<<10, "version", "9P2000.L.Google.7")
+	case "getattr-elsewhere":
+		other = tGetattr(72)
+	case "read-same-file":
+		other = tRead(90, 1, 2) // read-class next to read-class
+		if c.TwoConn {
+			other = tGetattr(70)
+		}
 	default:
 		other = tGetattr(70)
 	}
@@ -549,6 +570,9 @@ func runNoneClassCase(c noneClassCase) *fail {
 		}
 	}
 	if err != nil {
+		if c.Held == "read" || c.Held == "write" || c.Held == "getattr-held" {
+			return failf("request-delayed-by-read-class-call:"+c.Held+":"+c.Other, "%s was not answered while %s was held inside %s, after which the File contract orders only write-class and global calls on that path: %v (%s)", other, held, op, err, desc)
+		}
 		return failf("request-delayed-by-none-class-call:"+c.Held, "%s was not answered while %s was held inside %s, for which the File interface gives no concurrency guarantee: %v (%s)", other, held, op, err, desc)
 	}
 	if rep.Type == refcodec.Rlerror {
@@ -736,6 +760,25 @@ func TestC06(t *testing.T) {
 			}
 		}
 		h.Exhaustive(fmt.Sprintf("%d calls without a concurrency guarantee held x %d other requests (write-class on the same path, renames, ...) x {same, other connection}", len(noneClassHeld), len(noneClassOthers)))
+		// held read-class calls delay nothing but what the contract orders after them -
+		// not a Tversion in mid-session, not reads of the same file, not other paths
+		for _, held := range readClassHeld {
+			for _, other := range readClassOthers {
+				for _, two := range []bool{false, true} {
+					c := noneClassCase{Native: !two, Held: held, Other: other, TwoConn: two}
+					f := runNoneClassCase(c)
+					h.Case(evid.HashJSON(c), true, "read-class-held:"+held)
+					if f != nil && strings.HasPrefix(f.Sig, "harness-") {
+						t.Errorf("HARNESS-ERROR %s", f.Msg)
+						continue
+					}
+					if h.report("none-class", f, c) {
+						return
+					}
+				}
+			}
+		}
+		h.Exhaustive(fmt.Sprintf("%d read-class calls held x %d requests not ordered after them (mid-session Tversion, reads of the same file, other paths) x {same, other connection}", len(readClassHeld), len(readClassOthers)))
 	}
 	rapidCases(h, "batches", env.PerShard(env.Pick(2400, 200000)), func(rt *rapid.T) batchCase {
 		return genBatchCase(rt, env.Pick(6, 24))
